@@ -139,8 +139,9 @@ def config_keys(ctx):
     fi = ctx.fn("bits.config.Config.__init__")
     kwp = P("**kwargs", tm.DICT)
     keys, other = {}, []
+    ev0 = ctx.evaluator()
     try:
-        s = ctx.evaluator().run(fi)
+        s = ev0.run(fi)
     except Exception as e:  # fall back to nothing: reported as "does something else"
         return fi, {}, ["__init__ could not be summarised: %s" % e]
     if len(s.exits) != 1 or s.raises():
@@ -151,6 +152,10 @@ def config_keys(ctx):
         k = name[5:]
         if isinstance(val, T) and val.op == "get" and tm.veq(rules.unfz(val.args[0]), kwp) and val.args[1] == k and tm.is_conc(val.args[2]):
             keys[k] = val.args[2]
+        elif isinstance(val, T) and val.op == "param" and val.args[0] == k and ev0.default_of(fi, k)[0] and tm.is_conc(ev0.default_of(fi, k)[1]) and \
+                (fi.node.args.kwarg is not None):
+            # the same thing with the name as an explicit keyword parameter with a constant default; **rest swallows unknown keys
+            keys[k] = ev0.default_of(fi, k)[1]
         else:
             other.append("self.%s = %s" % (k, tm.show(val)[:60]))
     for c in s.calls:
